@@ -56,12 +56,14 @@ Definition knap_raises_q (values weights : list Q) (capacity : Q) : bool :=
   end.
 
 (* the specification of an observable: ValueError exactly on malformed input, otherwise a feasible,
-   faithfully scored selection *)
+   faithfully scored selection.  (The guard 0 <= capacity only matters for the empty item list: the code returns
+   the empty selection for n = 0 before it validates anything, so solve_knapsack([], [], -5) is accepted; a negative
+   capacity is outside the property's quantifier.  For n > 0 `raises = false` already implies 0 <= capacity.) *)
 Definition knap_spec_q (values weights : list Q) (capacity : Q) (o : qobs) : Prop :=
   match o with
   | None => knap_raises_q values weights capacity = true
   | Some (sel, obj, _) => knap_raises_q values weights capacity = false /\
-                          knap_feasible_q 0 values weights capacity sel obj
+                          (Qle_bool 0 capacity = true -> knap_feasible_q 0 values weights capacity sel obj)
   end.
 
 Definition knap_check_q (values weights : list Q) (capacity : Q) (o : qobs) : bool :=
@@ -69,8 +71,9 @@ Definition knap_check_q (values weights : list Q) (capacity : Q) (o : qobs) : bo
   | None => knap_raises_q values weights capacity
   | Some (sel, obj, _) =>
       negb (knap_raises_q values weights capacity) &&
-      incrb sel && forallb (fun i => (i <? length values)%nat) sel &&
-      Qle_bool (sumQ (pickQ weights sel)) capacity && Qeq_bool obj (sumQ (pickQ values sel))
+      (negb (Qle_bool 0 capacity) ||
+       incrb sel && forallb (fun i => (i <? length values)%nat) sel &&
+       Qle_bool (sumQ (pickQ weights sel)) capacity && Qeq_bool obj (sumQ (pickQ values sel)))
   end.
 
 Lemma knap_check_q_sound values weights capacity o :
@@ -78,11 +81,12 @@ Lemma knap_check_q_sound values weights capacity o :
 Proof.
   destruct o as [[[sel obj] st]|]; cbn [knap_check_q knap_spec_q]; [|intros H; exact H].
   intros H.
+  apply andb_prop in H. destruct H as [H1 H].
+  split; [destruct (knap_raises_q values weights capacity); [discriminate H1|reflexivity]|].
+  intros Hcap. rewrite Hcap in H. cbn [negb orb] in H.
   apply andb_prop in H. destruct H as [H H5].
   apply andb_prop in H. destruct H as [H H4].
-  apply andb_prop in H. destruct H as [H H3].
-  apply andb_prop in H. destruct H as [H1 H2].
-  split; [destruct (knap_raises_q values weights capacity); [discriminate H1|reflexivity]|].
+  apply andb_prop in H. destruct H as [H2 H3].
   pose proof (incrb_sound sel H2) as Hi.
   split; [exact Hi|]. split; [apply incr_NoDup; exact Hi|].
   split.
